@@ -577,13 +577,16 @@ class World:
 
     # ---- snapshot/restore of class-level and module-level mutable state
     def snapshot(self):
+        self._snap = self.take_snapshot()
+
+    def take_snapshot(self):
         snap = []
         seen = set()
         for m in list(self.mods.values()):
             snap.append((m.globals, dict(m.globals)))
             for v in list(m.globals.values()):
                 self._snap_class(v, snap, seen)
-        self._snap = [(d, {k: _deepcopy_state(v) for k, v in s.items()}) for d, s in snap]
+        return [(d, {k: _deepcopy_state(v) for k, v in s.items()}) for d, s in snap]
 
     def _snap_class(self, v, snap, seen):
         if isinstance(v, ClassV) and id(v) not in seen and not v.builtin:
@@ -592,10 +595,11 @@ class World:
             for x in list(v.dict.values()):
                 self._snap_class(x, snap, seen)
 
-    def restore(self):
-        if self._snap is None:
+    def restore(self, snap=None):
+        snap = snap if snap is not None else self._snap
+        if snap is None:
             return
-        for d, s in self._snap:
+        for d, s in snap:
             d.clear()
             for k, v in s.items():
                 d[k] = _deepcopy_state(v)
